@@ -47,7 +47,7 @@ func c01r1(r *R) {
 		gs := c.guardStrs(i.Block())
 		e0, e1 := c.Expr(ret.Results[0]), c.Expr(ret.Results[1])
 		if e1 == "nil" {
-			o.AtI(i).Check(strings.HasPrefix(e0, "ja3.DigestHex(&") && hasGuardContaining(gs, "-", "Unmarshal("), "JA3Fingerprint returns %s under %v, want ja3.DigestHex(<hello parsed in this call>) on the parse-success edge", e0, gs)
+			o.AtI(i).Check(strings.HasPrefix(e0, "ja3.DigestHex(&") && guardOkOn(gs, "Unmarshal("), "JA3Fingerprint returns %s under %v, want ja3.DigestHex(<hello parsed in this call>) on the parse-success edge", e0, gs)
 			if call, ok := ret.Results[0].(*ssa.Call); ok && len(um) == 1 {
 				o.Check(call.Call.Args[0] == callOf(um[0]).Args[0], "the digest is computed from a different hello than the one parsed")
 			}
